@@ -250,6 +250,13 @@ def transcendental_axioms(ctx):
                       z3.ForAll([a, b], z3.Implies(z3.And(a > 0, b > 0), f(a, b) > 0), patterns=[f(a, b)]),
                       z3.ForAll([a, b], z3.Implies(z3.Or(a == 0, b == 0), f(a, b) == 0), patterns=[f(a, b)]),
                       z3.ForAll([a, b], z3.Implies(b == 1, f(a, b) == a), patterns=[f(a, b)])]
+    if "divR" in ctx.ufs:
+        f = ctx.ufs["divR"]
+        a, b = z3.Reals("ax_d1 ax_d2")
+        ax["divR"] = [z3.ForAll([a, b], z3.Implies(z3.And(a >= 0, b > 0), f(a, b) >= 0), patterns=[f(a, b)]),
+                      z3.ForAll([a, b], z3.Implies(z3.And(a > 0, b > 0), f(a, b) > 0), patterns=[f(a, b)]),
+                      z3.ForAll([a, b], z3.Implies(z3.And(a == 0, b != 0), f(a, b) == 0), patterns=[f(a, b)]),
+                      z3.ForAll([a, b], z3.Implies(b == 1, f(a, b) == a), patterns=[f(a, b)])]
     if "sqrt" in ctx.ufs:
         s = ctx.uf("sqrt", R, R)
         a, b = z3.Reals("ax_c ax_d")
